@@ -408,7 +408,7 @@ def gen_cases(ck: core.Check) -> tuple[list[dict], dict]:
             cases.append({"kind": "script", "script": sc, "descr": d, "family": "skeleton-k3"})
         stats["skeleton_k3_sampled"] = len(cases) - n0
     else:
-        for d, sc in G.skeletons(3, 2, rng, sample=650 * (3 if getattr(ck, "escalated", False) else 1)):
+        for d, sc in G.skeletons(3, 2, rng, sample=560 * (3 if getattr(ck, "escalated", False) else 1)):
             cases.append({"kind": "script", "script": sc, "descr": d, "family": "skeleton-k2"})
         stats["skeleton_k2_sampled"] = len(cases) - n0
         n0 = len(cases)
@@ -425,13 +425,13 @@ def gen_cases(ck: core.Check) -> tuple[list[dict], dict]:
         cases.append({"kind": "script", "script": sc, "descr": d, "family": "cross-ctrl-output"})
     stats["cross_ctrl_output_exhaustive_trees<=%d_bodies" % ck.pick(4, 5)] = len(cases) - n0
     n0 = len(cases)
-    for d, sc in G.cross_skeletons(ck.pick(5, 6), rng, sample=ck.pick(500, 2000)):
+    for d, sc in G.cross_skeletons(ck.pick(5, 6), rng, sample=ck.pick(400, 2000)):
         cases.append({"kind": "script", "script": sc, "descr": d, "family": "cross-ctrl-output-sampled"})
     stats["cross_ctrl_output_sampled"] = len(cases) - n0
     # (ii) seeded random programs
     n0 = len(cases)
     esc = 3 if getattr(ck, "escalated", False) and not ck.thorough else 1
-    for i in range(ck.pick(2100, 8000) * esc):
+    for i in range(ck.pick(1800, 8000) * esc):
         leak_p = [0.0, 0.0, 0.05, 0.3][i % 4]
         sc = G.random_script(rng, rng.randrange(3, 28), leak_p)
         cases.append({"kind": "script", "script": sc, "family": f"random-leak{leak_p}"})
@@ -567,7 +567,7 @@ def run(ck: core.Check, prove: bool = True):
     hrng = random.Random(ck.seed * 104729 + 7)
     hrng.shuffle(hsrc)
     hcases = []
-    for k, (j, c) in enumerate(hsrc[: ck.pick(900, 3000)]):
+    for k, (j, c) in enumerate(hsrc[: ck.pick(800, 3000)]):
         hc = {"kind": "history", "script": c["script"], "hseed": hrng.randrange(1 << 30), "family": c.get("family"), "pal": c.get("pal")}
         if k % 3 == 1:
             # another program of the same family (the neighbours in generation order: same scope tree,
@@ -708,6 +708,15 @@ def run(ck: core.Check, prove: bool = True):
                     # leakFreeB  ==>  validG; conversely an accepted emission is leak-free
                     if m.get("wf") and m.get("leak_free") and not m.get("bridge_valid"):
                         mismatch("bridge: build_valid instance (leak-free build not accepted by validG)", ap, None, None)
+                    # the instance of build_valid_mainClean_checked: WFb, build ok, mainCleanB ==> validG (no
+                    # hypothesis about scopes); and how many leak-free builds the static condition covers
+                    if m.get("main_clean") is not None:
+                        stats["main_clean_checked"] = stats.get("main_clean_checked", 0) + 1
+                        stats["main_clean"] = stats.get("main_clean", 0) + int(bool(m["main_clean"]))
+                        if m.get("wf") and m["main_clean"] and not m.get("bridge_valid"):
+                            mismatch("bridge: build_valid_mainClean instance (main-clean build not accepted by validG)", ap, None, None)
+                        if m.get("leak_free") and not m["main_clean"]:
+                            stats["leak_free_but_not_main_clean"] = stats.get("leak_free_but_not_main_clean", 0) + 1
                     if m.get("bridge_valid") and not m.get("leak_free"):
                         mismatch("bridge: accepted emission is not leak-free", ap, None, None)
                     if bool(m.get("bridge_valid")) != bool(m.get("struct_ok")):
